@@ -553,6 +553,16 @@ func (t *trzszTransfer) getNewTimeout() <-chan time.Time {
 	return nil
 }
 
+// maxBinaryDataSize is the largest binary chunk the peer may announce: a chunk never exceeds the
+// negotiated buffer size (10240 until the first acknowledgement), at most doubled by escaping.
+func (t *trzszTransfer) maxBinaryDataSize() int64 {
+	size := t.transferConfig.MaxBufSize
+	if size < 10240 {
+		size = 10240
+	}
+	return 2 * size
+}
+
 func (t *trzszTransfer) recvData() ([]byte, error) {
 	timeout := t.getNewTimeout()
 	if !t.transferConfig.Binary {
@@ -561,6 +571,9 @@ func (t *trzszTransfer) recvData() ([]byte, error) {
 	size, err := t.recvInteger("DATA", false, timeout)
 	if err != nil {
 		return nil, err
+	}
+	if size < 0 || size > t.maxBinaryDataSize() {
+		return nil, simpleTrzszError("Invalid binary data size: %d", size)
 	}
 	data, err := t.buffer.readBinary(int(size), timeout)
 	if err != nil {
